@@ -204,6 +204,66 @@ FailRoOutcomes(impl, st, c) ==
     ELSE IF c.op \in {"subwrite", "submkdir"} THEN SubThenMutate(impl, st, c)
     ELSE Outcomes(impl, st, c)
 
+(***************************************************************************)
+(* BasePathFS (C10): a chroot at directory B of the base.  Through the     *)
+(* wrapper a path is interpreted in the VIRTUAL namespace whose root is B: *)
+(* an absolute path is cleaned (its ".." elements stop at the virtual      *)
+(* root) and prefixed with B; a relative path is taken from the virtual    *)
+(* working directory (the base's working directory seen from B; "/" when   *)
+(* the base's lies outside B).  The call then has the outcome and effect   *)
+(* of the translated call on the base, so nothing outside B can be read,   *)
+(* created, changed or removed, and every path handed back is virtual.     *)
+(* (The universe has no symbolic links: BasePathFS does not advertise      *)
+(* them.)                                                                  *)
+(***************************************************************************)
+BaseDir == <<"w", "B">>
+IsPrefixSeq(p, q) == Len(p) <= Len(q) /\ SubSeq(q, 1, Len(p)) = p
+
+\* the virtual working directory, as names below B
+VCwd(st) == IF IsPrefixSeq(BaseDir, st.cwdn) THEN SubSeq(st.cwdn, Len(BaseDir) + 1, Len(st.cwdn)) ELSE <<>>
+
+ToBase(st, p) ==
+    IF IsEmptyPath(p) THEN [abs |-> TRUE, parts |-> BaseDir]      \* "" names the virtual root (ToBasePath)
+    ELSE [abs |-> TRUE, parts |-> BaseDir \o LexCleanAcc(TRUE, <<>>, IF p.abs THEN p.parts ELSE VCwd(st) \o p.parts)]
+
+\* results that are paths come back in the virtual namespace
+ToVirtual(path) ==
+    IF path.abs /\ IsPrefixSeq(BaseDir, path.parts)
+    THEN [abs |-> TRUE, parts |-> SubSeq(path.parts, Len(BaseDir) + 1, Len(path.parts))] ELSE path
+
+BpTranslate(st, c) ==
+    [c EXCEPT !.p = IF c.op \in HOps \/ c.op = "getwd" THEN @ ELSE ToBase(st, @),
+              !.q = IF c.op \in {"rename", "link"} THEN ToBase(st, @) ELSE @]
+
+BpStrict(impl, st, c) ==
+    IF c.op \in {"symlink", "readlink", "evalsymlinks"} THEN Refused(st)      \* no symbolic links through BasePathFS
+    ELSE {[o EXCEPT !.res.path = ToVirtual(@)] : o \in Outcomes(impl, st, BpTranslate(st, c))}
+
+(* KF31  BasePathFS hands a RELATIVE path to the base file system untranslated: it is resolved against the
+         base's own working directory - the base's, not B, until Chdir is called through the wrapper - and
+         its ".." elements can leave B (WriteFile("evil") on a fresh wrapper writes next to B; after
+         Chdir("/a"), ReadFile("../../s") reads outside B).  When such a call fails, translating the error
+         (whose path is the relative name) panics; Getwd panics while the base's working directory is outside B. *)
+IsRel(p) == ~p.abs /\ p.parts # <<>>
+UsesRel(c) == (c.op \notin HOps /\ c.op # "getwd" /\ IsRel(c.p)) \/ (c.op \in {"rename", "link"} /\ IsRel(c.q))
+BpRaw(st, c) == [c EXCEPT !.p = IF c.op \in HOps \/ c.op = "getwd" \/ IsRel(@) THEN @ ELSE ToBase(st, @),
+                          !.q = IF c.op \in {"rename", "link"} /\ ~IsRel(@) THEN ToBase(st, @) ELSE @]
+Panics(st) == [res |-> [R0 EXCEPT !.err = "PANIC"], st |-> st, kf |-> "KF31", inv |-> "any", skip |-> TRUE]
+KF31(impl, st, c) ==
+    IF "KF31" \notin OpenKF THEN {}
+    ELSE IF c.op = "getwd" THEN (IF IsPrefixSeq(BaseDir, st.cwdn) THEN {} ELSE {Panics(st)})
+    ELSE IF ~UsesRel(c) \/ c.op \in {"symlink", "readlink", "evalsymlinks"} THEN {}
+    ELSE UNION {IF o.res.err \notin {"ok", "EOF"} THEN {Panics(st)}
+                \* CreateTemp succeeds in the base, then translating the (relative) name of the new file panics
+                ELSE IF c.op = "createtemp" THEN {Panics(o.st)}
+                ELSE {[o EXCEPT !.kf = "KF31", !.res.path = ToVirtual(@)]}
+                : o \in Outcomes(impl, st, CleanCall(BpRaw(st, c)))}
+
+BpOutcomes(impl, st, c) == BpStrict(impl, st, c) \cup KF31(impl, st, c)
+
+\* what lies outside B in the base
+Outside(st) == {e \in Proj(st) : ~IsPrefixSeq(BaseDir, e.p)}
+
 WithX(o, x) == [res |-> o.res, st |-> o.st, kf |-> o.kf, inv |-> o.inv, skip |-> o.skip, cons |-> <<>>, x |-> x]
 
 \* x is the wrapper's own state (FailFS: plan and counters); outcomes carry cons and the new x
@@ -212,6 +272,7 @@ WOutcomes(w, impl, st, c, x) ==
       [] w = "rofs"   -> {WithX(o, x) : o \in RoOutcomes(impl, st, c)}
       [] w = "failro" -> {WithX(o, x) : o \in FailRoOutcomes(impl, st, c)}
       [] w = "failfs" -> FailOutcomes(impl, st, c, x)
+      [] w = "basepath" -> {WithX(o, x) : o \in BpOutcomes(impl, st, c)}
 
 \* the tree (and the modification times, carried separately) never change through a read-only wrapper
 BaseUntouched(w, st, o) == w \in {"rofs", "failro"} => Proj(o.st) = Proj(st)
